@@ -258,6 +258,31 @@ Theorem C19_F4_pinned_refuted : exists e, guard_F4 no_fixes e = true /\ ~ spec_f
 Proof. exact F4_refuted. Qed.
 Print Assumptions C19_F4_pinned_refuted.
 
+(** * Kubernetes provider: updateStatus, reached from every informer callback, for every status string
+    (number of "/"-separated parts), every PatchStatus answer and any number of conflicts with re-reads *)
+
+(** it panics exactly on the inputs of C19-F12 (no second part in status.activeIn) and C19-F13 (a
+    PatchStatus error that is not a *StatusError), at the first try that is reached … *)
+Theorem C19_update_status_panic_iff : forall f tries s,
+  update_status f tries = Panic s <->
+  (s = SActiveIn /\ guard_F12 f tries = true) \/ (s = SStatusErr /\ guard_F13 f tries = true).
+Proof. exact update_status_panic_iff. Qed.
+Print Assumptions C19_update_status_panic_iff.
+
+(** … and never with the two candidate repairs *)
+Theorem C19_update_status_total_fixed : forall f tries s,
+  fx12 f = true -> fx13 f = true -> update_status f tries <> Panic s.
+Proof. exact update_status_total_fixed. Qed.
+Print Assumptions C19_update_status_total_fixed.
+
+Theorem C19_F12_refuted : exists tries, guard_F12 no_fixes tries = true /\ update_status no_fixes tries = Panic SActiveIn.
+Proof. exact F12_refuted. Qed.
+Print Assumptions C19_F12_refuted.
+
+Theorem C19_F13_refuted : exists tries, guard_F13 no_fixes tries = true /\ update_status no_fixes tries = Panic SStatusErr.
+Proof. exact F13_refuted. Qed.
+Print Assumptions C19_F13_refuted.
+
 (** * Request goroutines: a panic BEFORE anything was written (e.g. the composite extractor on an
     empty strategy list, which panics exactly then) is answered by the recovery middleware, never
     with a success status.  (A panic after the header was sent keeps that status: [PanickedAfter].
